@@ -62,6 +62,10 @@ fn run_job(cli: &str, work: &str, j: &Job) -> Value {
         args.push("--heu".into());
         args.push(h.into());
     }
+    if j.kind == "cli_counter" {
+        args.push("--counter".into());
+        args.push("nai".into());
+    }
     let out = std::process::Command::new(cli).args(&args).env_remove("RUST_LOG").env("RUST_BACKTRACE", "0").output();
     let _ = std::fs::remove_file(&path);
     let (exit, stdout, stderr) = match out {
@@ -69,12 +73,24 @@ fn run_job(cli: &str, work: &str, j: &Job) -> Value {
         Err(e) => (-99, String::new(), format!("spawn failed {}", e)),
     };
     let raw: Vec<&str> = stdout.lines().collect();
+    // --counter nai prints one "ModelCounts { cmodels: x, models: y } " per statement on the first line
+    let counts: Vec<Value> = if j.kind == "cli_counter" {
+        raw.first().map(|l| l.split("ModelCounts").skip(1).map(|piece| {
+            let num = |key: &str| -> Value {
+                piece.split(key).nth(1).map(|r| r.trim_start().chars().take_while(|c| c.is_ascii_digit()).collect::<String>())
+                    .and_then(|d| d.parse::<u64>().ok()).map(|x| json!(x)).unwrap_or(json!(-1))
+            };
+            json!([num("cmodels:"), num(", models:")])
+        }).collect()).unwrap_or_default()
+    } else {
+        vec![]
+    };
     let opchars = j.labels.iter().any(|l| l.chars().any(|c| "!&|^=<>()?:".contains(c)));
     json!({"kind": j.kind, "id": j.id, "lib": j.lib, "sort": j.sort, "flags": j.flags, "heu": j.heu.unwrap_or("-"), "n": j.labels.len(),
            "labels": j.labels.iter().map(|l| cps(l)).collect::<Vec<_>>(), "asts": j.asts.iter().map(|a| a.to_json_idx()).collect::<Vec<_>>(),
            "exit": exit, "lines": raw.iter().map(|l| tokenise(l)).collect::<Vec<_>>(), "raw": raw, "text": j.text, "cp": cps(&j.text),
            "opchars": opchars, "stderr_tail": stderr.chars().rev().take(160).collect::<String>().chars().rev().collect::<String>(),
-           "argv": args[1..].to_vec()})
+           "argv": args[1..].to_vec(), "counts": counts})
 }
 
 fn sha(path: &str) -> String {
@@ -279,6 +295,10 @@ pub fn main(args: &[String]) {
         // same flags on all three modes (the modes must print the same sets)
         for lib in libs {
             jobs.push(Job { id: format!("k{}_{}", k, jobs.len()), kind: "cli", text: text.clone(), lib, sort: "none", flags: vec!["grd", "com", "stm"], heu: None, labels: dl.clone(), asts: da.clone() });
+        }
+        // C13 at the CLI: --counter nai in the two arms that support it (declaration order, no semantics flag)
+        for lib in ["naive", "hybrid"] {
+            jobs.push(Job { id: format!("k{}_{}", k, jobs.len()), kind: "cli_counter", text: text.clone(), lib, sort: "none", flags: vec![], heu: None, labels: dl.clone(), asts: da.clone() });
         }
         // malformed variants of the same file
         for m in 0..2 {
